@@ -508,6 +508,9 @@ def run(ctx):
     d4_codec(db, rep)
     d4b_composite_codec(db, rep)
     d10_var_table_writers(db, rep)
+    # D11: constants of different widths never share a slot (the slot's size is what gets serialised) - shared with C04/C15
+    import importlib as _il11
+    _il11.import_module("rules.c15").const_slot_shared_by_size(db, rep, "D11-CONST-SLOT-BY-SIZE")
 
     if ctx.tier == "thorough":
         d5(ctx, rep)
